@@ -27,7 +27,7 @@ def rident(rng, t, i):
     if t == "i": return str(1000 + i)
     if t == "g": return "%08x-0000-0000-0000-%012x" % (i, rng.getrandbits(40))
     if t == "b": return "QUJD" + str(i)
-    return rng.choice(["Node%d" % i, "n s%d" % i, "a;b=%d" % i, "é%d" % i, "x%d=ns" % i, "weird<&>%d" % i, "k[[%d]]>" % i]) if rng.random() < 0.5 else "S%d" % i
+    return rng.choice(["Node%d" % i, "n s%d" % i, "a;b=%d" % i, "é%d" % i, "x%d=ns" % i, "weird<&>%d" % i, "k[[%d]]>" % i, "P&V%d" % i, "<t%d>" % i, "a&amp;b%d" % i]) if rng.random() < 0.6 else "S%d" % i
 
 BASE_TYPES = [("i", "45", "UAReferenceType", "HasSubtype"), ("i", "47", "UAReferenceType", "HasComponent"), ("i", "35", "UAReferenceType", "Organizes"),
               ("i", "40", "UAReferenceType", "HasTypeDefinition"), ("i", "46", "UAReferenceType", "HasProperty"), ("i", "37", "UAReferenceType", "HasModellingRule"),
@@ -76,7 +76,7 @@ def gen_graph(rng, n_ns=2, n_nodes=6, hostile=True, with_values=True, dangling=T
         value = None
         if with_values and cls in ("UAVariable", "UAVariableType") and rng.random() < 0.6 and value_gen: value = value_gen(rng)
         desc = rng.choice([None, None] + TEXTS) if hostile else None
-        disp = rng.choice(TEXTS) if hostile else name
+        disp = rng.choice(TEXTS) if hostile else (name if rng.random() > 0.06 else "")
         if hostile and i < len(MUST): (desc, disp) = (MUST[i], disp) if rng.random() < 0.5 else (desc, MUST[i])
         g.nodes[k] = dict(cls=cls, bname=(bn_uri, name), display=disp, desc=desc, attrs=attrs, value=value)
         g.order.append(k); keys.append(k)
@@ -103,21 +103,27 @@ def nid_text(key, local, alias_of=None, rng=None):
     idx = local.index(uri)
     return "%s=%s" % (t, ident) if idx == 0 else "ns=%d;%s=%s" % (idx, t, ident)
 
-def serialise(g, rng, base_name="Opc.Ua.NodeSet2.xml", placement=None, file_names=None, with_base=True, perm=True, aliases=True, value_xml=None):
-    """graph -> list of (file name, doc AST).  placement: how each reference is declared ('src', 'trg', 'both'); None = random"""
+def serialise(g, rng, base_name="Opc.Ua.NodeSet2.xml", placement=None, file_names=None, with_base=True, perm=True, aliases=True, value_xml=None, split=False):
+    """graph -> list of (file name, doc AST).  placement: how each reference is declared ('src', 'trg', 'both'); None = random.
+    split: a namespace may be spread over two documents (a structure file and an instance file), each declaring its own half of the nodes"""
     out = []
     uris_docs = ([UA] if with_base else []) + list(g.uris)
     names = file_names or {}
     if placement is None: placement = [rng.choice(["src", "trg", "both"]) for _ in g.refs]
-    for di, U in enumerate(uris_docs):
-        mine = [k for k in g.order if k[0] == U]
+    parts = []
+    for U in uris_docs:
+        mine_all = [k for k in g.order if k[0] == U]
+        if split and U != UA and len(mine_all) >= 2 and rng.random() < 0.4:
+            cut = rng.randint(1, len(mine_all) - 1); parts += [(U, mine_all[:cut], 0), (U, mine_all[cut:], 1)]
+        else: parts.append((U, mine_all, 0))
+    for di, (U, mine, part_no) in enumerate(parts):
         if not mine and U != UA: continue
         # references declared in this document
         decl = []   # (holder key, type key, forward?, other key)
         for ri, (s, t, ty) in enumerate(g.refs):
             pl = placement[ri]
-            on_src = s[0] == U and s in g.nodes and (pl in ("src", "both") or not (t[0] in uris_docs and t in g.nodes))
-            on_trg = t[0] == U and t in g.nodes and (pl in ("trg", "both") or not (s[0] in uris_docs and s in g.nodes))
+            on_src = s in mine and s in g.nodes and (pl in ("src", "both") or not (t[0] in uris_docs and t in g.nodes))
+            on_trg = t in mine and t in g.nodes and (pl in ("trg", "both") or not (s[0] in uris_docs and s in g.nodes))
             if on_src: decl.append((s, ty, True, t))
             if on_trg and not (on_src and s == t and pl != "both"): decl.append((t, ty, False, s))
         used = [UA, U] if U != UA else [UA]
@@ -167,7 +173,8 @@ def serialise(g, rng, base_name="Opc.Ua.NodeSet2.xml", placement=None, file_name
                 refs.append((nid_text(ty, local, alias_of, rng), fwd, nid_text(o, local) + (rng.choice(["", " ", "\n      "]) if rng.random() < 0.2 else "")))
             rng.shuffle(refs)
             disp = [n["display"]] if n["display"] is not None else []
-            if disp and rng.random() < 0.1: disp.append("second display name")
+            # several DisplayName elements: the first one counts, also when it is empty
+            if disp and (rng.random() < 0.1 or (disp[0].strip() == "" and rng.random() < 0.7)): disp.append("second display name")
             nodes.append(dict(cls=n["cls"], attrs=attrs, display=disp, desc=n["desc"], refs=refs if (refs or rng.random() < 0.5) else None,
                               value=(value_xml(n["value"]) if n["value"] is not None and value_xml else None)))
         m = g.models.get(U)
@@ -178,13 +185,13 @@ def serialise(g, rng, base_name="Opc.Ua.NodeSet2.xml", placement=None, file_name
             models = [dict(attrs=ma, required=req)]
         elif U == UA and rng.random() < 0.5:
             models = [dict(attrs=[("ModelUri", UA), ("Version", "1.04.7"), ("PublicationDate", "2020-07-15T00:00:00Z")], required=[])]
-        fname = names.get(U) or (base_name if U == UA else "ns_%02d_%s.xml" % (rng.randint(0, 99), "".join(c for c in U if c.isalnum())[-8:]))
+        fname = names.get(U) or (base_name if U == UA else "ns_%02d_%s%s.xml" % (rng.randint(0, 99), "".join(c for c in U if c.isalnum())[-8:], "_b" if part_no else ""))
         d = dict(uris=local[1:] if (len(local) > 1 or rng.random() < 0.5) else None, models=models, aliases=alias_list if (alias_list or rng.random() < 0.5) else None, nodes=nodes)
         out.append((fname, d, local))
     return out
 
 # ---------------------------------------------------------------------------------------------- enumerations (C11, C16, C17)
-def add_enums(g, rng, n_types=None, n_vars=None, flavours=None, kinds=None):
+def add_enums(g, rng, n_types=None, n_vars=None, flavours=None, kinds=None, placeholder=None):
     """adds the Enumeration data type to the base namespace, enum types (EnumStrings / EnumValues / no definition) and enum-typed variables.
        returns a description used by the oracles: dict(types={key: (flavour, mapping or None, name)}, vars={key: (type key, kind, value)})"""
     from opcua_tools import ua_data_types as T
@@ -203,9 +210,12 @@ def add_enums(g, rng, n_types=None, n_vars=None, flavours=None, kinds=None):
         mapping = None
         if flavour == "strings":
             texts = [rng.choice(["Off", "On", "Auto", "a b", "é"]) + str(j) for j in range(rng.randint(1, 4))]
-            mapping = dict(enumerate(texts))
+            # a reserved number: an entry without text in the middle of the array (the numbers of EnumStrings are positions)
+            if placeholder and len(texts) < 3: texts += ["Extra%d" % j for j in range(3 - len(texts))]
+            if len(texts) >= 2 and (placeholder or (placeholder is None and rng.random() < 0.4)): texts[rng.randrange(len(texts) - 1)] = None
+            mapping = {j: t_ for j, t_ in enumerate(texts) if t_ is not None}
             pk = (uri, "i", str(3100 + i))
-            val = T.UAListOf(tuple(T.UALocalizedText(t, "en") for t in texts), "LocalizedText")
+            val = T.UAListOf(tuple(T.UALocalizedText(t_, "en") if t_ is not None else T.UALocalizedText(None, None) for t_ in texts), "LocalizedText")
             g.nodes[pk] = dict(cls="UAVariable", bname=(UA, "EnumStrings"), display="EnumStrings", desc=None, attrs={"DataType": (UA, "i", "21"), "ValueRank": "1"}, value=val); g.order.append(pk)
             g.refs.append((tk, pk, (UA, "i", "46")))
         elif flavour == "values":
